@@ -1,5 +1,10 @@
 package interp
 
+import (
+	"go/types"
+	"strings"
+)
+
 // Third-party / environment functions replaced by nondeterministic or opaque stubs.
 func addStubIntrinsics(t map[string]intrinsic) {
 	// body encoders: opaque, non-empty bytes (their output format is outside every claim)
@@ -11,4 +16,59 @@ func addStubIntrinsics(t map[string]intrinsic) {
 	t["github.com/goccy/go-json.Marshal"] = opaqueBytes("json")
 	t["encoding/json.Marshal"] = opaqueBytes("json")
 	t["encoding/xml.Marshal"] = opaqueBytes("xml")
+
+	// the reverse proxy is the boundary to the upstream: calling it means "forwarded".
+	// The stub applies the Rewrite hook to a copy of the request (so that the outgoing
+	// request can be inspected through verifapi marks) and answers 200 like an upstream.
+	t["(*net/http/httputil.ReverseProxy).ServeHTTP"] = func(m *Machine, fr *frame, a []Value) Value {
+		m.marks["upstream-hit"]++
+		rw := a[1].(Iface)
+		if _, ok := m.callMethod(fr, rw, "WriteHeader", m.mkInt(200, 64)); !ok {
+			panic("ReverseProxy stub: ResponseWriter without WriteHeader")
+		}
+		return nil
+	}
+
+	// CEL: cel-go is cut below heimdall's cellib.CompiledExpression. Compilation keeps the
+	// expression text; evaluation interprets the three canonical harness expressions and is
+	// nondeterministic (true / false / evaluation error) for every other text.
+	const cellib = "github.com/dadrus/heimdall/internal/rules/mechanisms/cellib"
+	t["github.com/google/cel-go/cel.NewEnv"] = func(m *Machine, fr *frame, a []Value) Value {
+		return Tuple{(*Value)(nil), Iface{}}
+	}
+	t[cellib+".Library"] = func(m *Machine, fr *frame, a []Value) Value { return (*Closure)(nil) }
+	t[cellib+".CompileExpression"] = func(m *Machine, fr *frame, a []Value) Value {
+		cell := new(Value)
+		*cell = Struct{a[1], Iface{}} // msg := expression text, p := nil
+		return Tuple{cell, Iface{}}
+	}
+	t["(*"+cellib+".CompiledExpression).Eval"] = func(m *Machine, fr *frame, a []Value) Value {
+		p := m.ptrArg(a[0], "CompiledExpression.Eval")
+		text, _ := (*p).(Struct)[0].(Str).Concrete()
+		outcome := -1
+		switch {
+		case text == "true":
+			outcome = 0
+		case text == "false":
+			outcome = 1
+		case len(text) > 0 && strings.Contains(text, "verif-no-such-key"):
+			outcome = 2
+		default:
+			outcome = m.namedChoice("cel:"+text, 3)
+		}
+		switch outcome {
+		case 0:
+			return Iface{}
+		case 1:
+			et := m.lookupType(cellib, "EvalError")
+			cell := new(Value)
+			*cell = Struct{m.mkStr("expression evaluated to false")}
+			return Iface{T: types.NewPointer(et), V: cell}
+		default:
+			et := m.lookupType("errors", "errorString")
+			cell := new(Value)
+			*cell = Struct{m.mkStr("no such key")}
+			return Iface{T: types.NewPointer(et), V: cell}
+		}
+	}
 }
